@@ -374,7 +374,7 @@ func init() {
 		Setup: func(tier string, seed uint64) int {
 			c03.seed, c03.tier = seed, tier
 			c03.maxN = map[string]int{"quick": 8, "thorough": 32}[tier]
-			return map[string]int{"quick": 3000, "thorough": 120000}[tier]
+			return map[string]int{"quick": 3000, "thorough": 300000}[tier]
 		},
 		Run: c03run,
 		Describe: func(idx int) any {
